@@ -81,12 +81,15 @@ def run(W, chk):
     # ------------------------------------------------------------ creation guards
     guards = [
         ("lp denom from pool manager", [LP_BY_PM(MP)], ()),
-        ("farm limit", [PredTrue("farms.len() < max_concurrent_farms", rel(r"^Store\(FARMS\)", "<", r"^Store\(CONFIG\)\.max_concurrent_farms$"))], ()),
+        # the number of live farms (a length of the stored farms, or a counter) is compared with the configured maximum
+        ("farm limit", [PredTrue("farms.len() < max_concurrent_farms", lambda pn, pa: rel_sign(
+            pn, pa, lambda v: not exact_origins(v) & {"Store(CONFIG).max_concurrent_farms"}, "<", om(r"^Store\(CONFIG\)\.max_concurrent_farms$")))], ()),
         ("min amount", [PredTrue("amount >= MIN_FARM_AMOUNT", rel(MP + r"\.farm_asset\.amount$", ">=", r"^Const\("))], ()),
         ("starts after the current epoch", [PredTrue("start_epoch > current", rel(MP + r"\.start_epoch$|^Query\(CurrentEpoch\)\.id$|^Const\(1_u64\)$", ">", r"^Query\(CurrentEpoch\)\.id$"))], ()),
         ("identifier length", [PredTrue("identifier.len() <= MAX", lambda pn, pa: rel_sign(
             pn, pa, lambda v: any(o.endswith("farm_identifier") and "len" in ops for (o, ops) in flat_atoms(v)), "<=", lambda v: all_origins(v) <= {"Const(66_usize)"} and bool(all_origins(v))))], ()),
-        ("identifier unused", [PredFalse("farm exists", lambda pn, pa: pn == "is_ok" and origin_match(pa[0], r"^Store\(FARMS\)"))], ()),
+        ("identifier unused", [PredFalse("farm exists", lambda pn, pa: pn == "is_ok" and origin_match(pa[0], r"^Store\(FARMS\)")),
+                               VariantEdge("farm lookup fails", r"^Store\(FARMS\)", ["Err", "None"])], ()),
         ("exact reward (other denom)", [PredTrue("sent == reward", eq_test(r"^info\.funds\[\*\]\.amount$", MP + r"\.farm_asset\.amount$"))], ASSUME_DENOMS_DIFFER),
         ("exact reward+fee (same denom)", [PredTrue("reward + fee == sent", lambda pn, pa: pn == "eq" and len(pa) > 1 and (
             (origin_match(pa[0], r"create_farm_fee\.amount$|farm_asset\.amount$") and origin_match(pa[1], r"^info\.funds\[\*\]\.amount$")) or
@@ -148,17 +151,21 @@ def run(W, chk):
         key = e.extra.get("key", EMPTY)
         chk.expect(set(flat_atoms(key)) == set(flat_atoms(vfield(v, "identifier"))), "KEY-farm", "create", "saved under its own identifier", "key differs from identifier", where(e))
     # partition: expired -> closed ; not expired -> counted
-    loops = [e for e in A.calls(r"IntoIterator.*::into_iter$") if "#part" in A.d(e.extra["dargs"][0]).fields]
-    ok = bool(loops) and all(tagvals(A.d(e.extra["dargs"][0]), "#part") == {"true"} for e in loops)
-    lens = [e for e in A.calls(r"Vec::<.*>::len$") if "#part" in A.d(e.extra["dargs"][0]).fields]
-    ok2 = bool(lens) and all(tagvals(A.d(e.extra["dargs"][0]), "#part") == {"false"} for e in lens)
-    chk.expect(ok and ok2, "AGREE-partition", "create farm", "the expired side of the partition is the one iterated (closed), the other side is counted against the limit",
-               "partition sides are crossed: iterated %s, counted %s" % (
-                   [tagvals(A.d(e.extra["dargs"][0]), "#part") for e in loops], [tagvals(A.d(e.extra["dargs"][0]), "#part") for e in lens]), A.entry)
-    preds_ = [A.d(e.extra["dargs"][0]).fields.get("#may:pred") for e in loops + lens]
-    okp = bool(preds_) and all(p is not None and (any(x.startswith("Query(Epoch)") for x in all_origins(p)) or
-                                                  {"Store(FARMS).claimed_amount", "Store(FARMS).farm_asset.amount"} <= all_origins(p)) for p in preds_)
-    chk.expect(okp, "AGREE-partition", "predicate", "the partition predicate is the farm-expiry test", "partition predicate is not the farm expiry test", A.entry)
+    if not A.calls(r"Iterator::partition$"):
+        chk.skip("AGREE-partition", "create farm", "expired / live farms are not separated with Iterator::partition here; the enumeration-bound, limit and closing rules "
+                 "decide the clause")
+    else:
+        loops = [e for e in A.calls(r"IntoIterator.*::into_iter$") if "#part" in A.d(e.extra["dargs"][0]).fields]
+        ok = bool(loops) and all(tagvals(A.d(e.extra["dargs"][0]), "#part") == {"true"} for e in loops)
+        lens = [e for e in A.calls(r"Vec::<.*>::len$") if "#part" in A.d(e.extra["dargs"][0]).fields]
+        ok2 = bool(lens) and all(tagvals(A.d(e.extra["dargs"][0]), "#part") == {"false"} for e in lens)
+        chk.expect(ok and ok2, "AGREE-partition", "create farm", "the expired side of the partition is the one iterated (closed), the other side is counted against the limit",
+                   "partition sides are crossed: iterated %s, counted %s" % (
+                       [tagvals(A.d(e.extra["dargs"][0]), "#part") for e in loops], [tagvals(A.d(e.extra["dargs"][0]), "#part") for e in lens]), A.entry)
+        preds_ = [A.d(e.extra["dargs"][0]).fields.get("#may:pred") for e in loops + lens]
+        okp = bool(preds_) and all(p is not None and (any(x.startswith("Query(Epoch)") for x in all_origins(p)) or
+                                                      {"Store(FARMS).claimed_amount", "Store(FARMS).farm_asset.amount"} <= all_origins(p)) for p in preds_)
+        chk.expect(okp, "AGREE-partition", "predicate", "the partition predicate is the farm-expiry test", "partition predicate is not the farm expiry test", A.entry)
     commit(chk, A, "create_farm")
 
     # ------------------------------------------------------------ expand
